@@ -1,6 +1,7 @@
 import Invoke.Lemmas.RunnerTerm
 import Invoke.Lemmas.RunnerFair
 import Invoke.Lemmas.RunnerTimer
+import Invoke.Lemmas.Terminal
 /-! # C08 — command execution always terminates, leaving no threads or timers behind
 
 On the runner transition system (`Model/RunnerIO.lean`; main thread, two readers, stdin handler,
@@ -153,5 +154,58 @@ example : mu exState < 40 ∧ exState.exited = true ∧ exState.out.isOpen = fal
 
 example : Covers [Actor.main, .out, .err, .stdin] := by
   intro a ha; cases a <;> simp_all
+
+/-! ### The terminal serving as the input stream (`character_buffered`, `Model/Terminal.lean`)
+
+What `tty.setcbreak` does (`sc`) and the body are parameters: the statements hold for every one of them. -/
+
+/-- **bracket_restores_tty** - whatever `setcbreak` does, whether the body returns or raises: if the body
+    itself leaves the terminal as it found it, the attributes after the bracket are the attributes
+    before it - for a tty, a non-tty, a backgrounded tty, a terminal already in cbreak mode -/
+theorem bracket_restores_tty (sc : TtyAttrs → TtyAttrs) (body : TtyAttrs → TtyAttrs × Bool) (t : TtyEnv)
+    (hframe : ∀ a, (body a).1 = a) : (characterBuffered sc body t).after = t.attrs :=
+  characterBuffered_after sc body t hframe
+
+/-- … and when the bracket did switch the terminal, it restores the saved settings even if the body
+    changed the mode itself (the `finally:` writes back what was saved) -/
+theorem bracket_restores_saved_settings (sc : TtyAttrs → TtyAttrs) (body : TtyAttrs → TtyAttrs × Bool) (t : TtyEnv)
+    (h : touches t = true) : (characterBuffered sc body t).after = t.attrs := by
+  simp [characterBuffered, h]
+
+/-- the body's exception is neither swallowed nor invented -/
+theorem bracket_propagates_outcome (sc : TtyAttrs → TtyAttrs) (body : TtyAttrs → TtyAttrs × Bool) (t : TtyEnv) :
+    (characterBuffered sc body t).raised = (body (characterBuffered sc body t).during).2 := by
+  unfold characterBuffered; split <;> rfl
+
+/-- a stream that is not a foregrounded tty, or is in cbreak mode already, is never touched -/
+theorem bracket_inert_unless_plain_foreground_tty (sc : TtyAttrs → TtyAttrs) (body : TtyAttrs → TtyAttrs × Bool) (t : TtyEnv)
+    (h : t.isTty = false ∨ t.foreground = false ∨ cbreakAlreadySet t.attrs = true) :
+    (characterBuffered sc body t).during = t.attrs := by
+  have : touches t = false := by
+    unfold touches; rcases h with h | h | h <;> simp [h]
+  simp [characterBuffered, this]
+
+/-- with the standard `setcbreak` the body of a touched bracket runs in cbreak mode, and a nested
+    bracket (another runner sharing the terminal) is inert - so it cannot restore prematurely -/
+theorem body_runs_in_cbreak_and_nested_bracket_is_inert (f : Nat → Nat) (t : TtyEnv) (h : touches t = true) :
+    cbreakAlreadySet (stdSetcbreak f t.attrs) = true ∧
+    touches { t with attrs := stdSetcbreak f t.attrs } = false := by
+  simp [cbreakAlreadySet, stdSetcbreak, touches]
+
+/-- HISTORIES: the application edits the terminal mode between commands in any way; after EVERY command
+    the mode is the one from just before that command, and the final mode is just the edits composed -/
+theorem session_restores_every_command (sc : TtyAttrs → TtyAttrs) (isTty fg : Bool) (a : TtyAttrs)
+    (steps : List ((TtyAttrs → TtyAttrs) × Bool)) :
+    (session sc isTty fg a steps).2 = steps.map (fun _ => true) ∧
+    (session sc isTty fg a steps).1 = steps.foldl (fun x s => s.1 x) a :=
+  session_all_restored sc isTty fg a steps
+
+/-- non-vacuity: a plain foreground tty is touched, a raising body still leaves it restored -/
+example :
+    let t : TtyEnv := { isTty := true, foreground := true, attrs := { echo := true, icanon := true, vmin := 0, vtime := 7, rest := 42 } }
+    touches t = true ∧
+    (characterBuffered (stdSetcbreak id) (fun a => (a, true)) t).after = t.attrs ∧
+    (characterBuffered (stdSetcbreak id) (fun a => (a, true)) t).raised = true ∧
+    cbreakAlreadySet (characterBuffered (stdSetcbreak id) (fun a => (a, true)) t).during = true := by decide
 
 end Inv
